@@ -286,10 +286,7 @@ class RealSys(object):
                     w.release(None)
         so.AsyncResult = self.old_ar
         self.o._applyCommand = lambda *a, **k: None
-        try:
-            self.o.destroy()
-        except Exception:   # noqa
-            pass
+        qc.close_node(self.o)             # destroy + the notifier's pipe (appendEntriesUseBatch=False)
 
     # -- labels --------------------------------------------------------------------------------
     def do_call(self, t):
@@ -665,8 +662,9 @@ def run(ctx):
     so = qc.load(ctx)
     # not the clock / PRNG an earlier component left behind; a private seeded PRNG makes the start value
     # of commandsLocalCounter (random.getrandbits(48)) replay from VERIF_SEED
+    fds = qc.fd_count()
     with qc.real_runtime(so, seed="%d/queue_model" % ctx.seed):
-        return _run(ctx, so)
+        return qc.fd_audit(_run(ctx, so), fds)
 
 
 def _run(ctx, so):
